@@ -248,6 +248,28 @@ def flip_bit(buf, i):
     return b
 
 
+def find_ok_buffers(scratch, prog, structs, si, t, ps, bufs, rng, tag, want=6, tries=600):
+    """More Ok seed buffers when the enumeration found (almost) none: random buffers over the program's alphabet, run through
+    the real view, kept when the view reports Ok().  Picks inputs only; nothing is judged here."""
+    known = bufs["ok"] + bufs["other"]
+    lmax = max([len(b) for b in known] + [1])
+    alpha = alphabet_for(prog, t)
+    cands = []
+    for k in range(tries):
+        n = rng.choice([lmax, max(0, lmax - 1), max(0, lmax - 2), max(0, lmax - 2), rng.randrange(0, lmax + 1)])
+        cands.append([rng.choice(alpha) if rng.random() < 0.85 else rng.randrange(256) for _ in range(n)])
+    traces = [(si, list(ps), [{"e": "mem", "bytes": b, "a": [0, len(b)], "b": [0, len(b)]}]) for b in cands]
+    lines, _text, _note = replay(scratch, prog, structs, traces, tag + "_seedsearch_" + prog.name)
+    found = []
+    if isinstance(lines, list):
+        for l in lines:
+            d = json.loads(l)
+            for ev in d["ev"]:
+                if ev["e"] == "mem" and ev["o"] and ev["o"][0][2] == 1 and ev["bytes"] not in found:
+                    found.append(ev["bytes"])
+    return found[:want]
+
+
 def seeds_for(bufs, mode, rng, limit=24):
     """Seed allocations (mem + two windows) for behaviours.  mode 'single': both windows = whole mem.
     mode 'pair': equal / one-bit-different / padding-different / different-length / truncated / overlapping."""
@@ -301,6 +323,8 @@ def behaviour_traces(scratch, prog, mode, actions, nbeh, depth, seed, tag, san=F
         if si is None:
             structs.append({"t": t, "targets": view_driver.write_targets(prog, t)})
             si = len(structs) - 1
+        if len(bufs["ok"]) < 3:
+            bufs = {"ok": bufs["ok"] + find_ok_buffers(scratch, prog, structs, si, t, ps, bufs, rng, tag), "other": bufs["other"]}
         seeds = seeds_for(bufs, mode, rng)
         if not seeds or (not structs[si]["targets"] and actions == ["wr"]):
             continue
